@@ -5,6 +5,7 @@ package main
 
 import (
 	"fmt"
+	"sync/atomic"
 
 	"github.com/cosmos/iavl"
 	"github.com/cosmos/iavl/verifcheck/ref"
@@ -67,11 +68,11 @@ func importCrashCuts(s *Spec, w *World, hist []Op, probes [][]byte, stats *crash
 			return nil
 		}
 		log := st.Log
-		stats.ops++
+		atomic.AddInt64(&stats.ops, 1)
 		cands := []*Model{NewModel(w.M.IV, w.M.IVSet), importedModel(w.M, v)}
 		names := []string{"empty", "imported"}
 		for c := 0; c <= len(log); c++ {
-			stats.cuts++
+			atomic.AddInt64(&stats.cuts, 1)
 			img := vstore.New()
 			for _, wr := range log[:c] {
 				img.Apply(wr)
@@ -79,7 +80,7 @@ func importCrashCuts(s *Spec, w *World, hist []Op, probes [][]byte, stats *crash
 			for _, fast := range []bool{w.Cfg.Fast, !w.Cfg.Fast} {
 				rc := w.Cfg
 				rc.Fast = fast
-				stats.images++
+				atomic.AddInt64(&stats.images, 1)
 				match, ferr := checkImage(img, rc, cands, names, probes)
 				if match == "" {
 					vv := viol("crash", "import commit of version %d interrupted after %d of %d physical writes; reopened with %s: %s: %s", v, c, len(log), rc, ferr.Oracle, ferr.Detail)
@@ -91,7 +92,7 @@ func importCrashCuts(s *Spec, w *World, hist []Op, probes [][]byte, stats *crash
 				}
 				if match == "empty" && c < len(log) {
 					// repeating the import on the image must succeed and give the imported version
-					stats.retries++
+					atomic.AddInt64(&stats.retries, 1)
 					re := img.Clone()
 					if err := runImport(re, w.Cfg, v, stream); err != nil {
 						vv := viol("crash", "import commit of version %d interrupted after %d of %d physical writes: repeating the import fails: %v", v, c, len(log), err)
@@ -124,15 +125,15 @@ func importFaults(s *Spec, w *World, hist []Op, probes [][]byte, stats *faultSta
 			return nil
 		}
 		n := st0.NCalls
-		stats.ops++
-		stats.calls += n
+		atomic.AddInt64(&stats.ops, 1)
+		atomic.AddInt64(&stats.calls, int64(n))
 		cands := []*Model{NewModel(w.M.IV, w.M.IVSet), importedModel(w.M, v)}
 		names := []string{"empty", "imported"}
 		for i := 0; i < n; i++ {
 			st := vstore.New()
 			st.FailAt = map[int]bool{i: true}
 			mark("C17 import of v%d fault %d cfg=%s hist=[%s]", v, i, s.Cfg, histString(hist))
-			stats.runs++
+			atomic.AddInt64(&stats.runs, 1)
 			var ierr error
 			pv := safely("import", func() *Violation { ierr = runImport(st, w.Cfg, v, stream); return nil })
 			site := "?"
@@ -148,9 +149,9 @@ func importFaults(s *Spec, w *World, hist []Op, probes [][]byte, stats *faultSta
 				return pv
 			}
 			if ierr != nil {
-				stats.surfaced++
+				atomic.AddInt64(&stats.surfaced, 1)
 			} else {
-				stats.harmless++
+				atomic.AddInt64(&stats.harmless, 1)
 			}
 			cs, ns := cands, names
 			if ierr == nil {
@@ -175,3 +176,113 @@ func importFaults(s *Spec, w *World, hist []Op, probes [][]byte, stats *faultSta
 }
 
 var _ = ref.EmptyHash
+
+// ---- one fixed import that spans more than one importer batch (10 000 nodes) ----
+
+type bigStream struct {
+	version int64
+	hash    []byte
+	nodes   []*iavl.ExportNode
+}
+
+func buildBigStream() (*bigStream, error) {
+	st := vstore.New()
+	t := iavl.NewMutableTree(st, 0, true, iavl.NewNopLogger())
+	for i := 0; i < 6000; i++ {
+		if _, err := t.Set([]byte(fmt.Sprintf("key-%05d", (i*7919)%6000)), []byte(fmt.Sprintf("v%d", i))); err != nil {
+			return nil, err
+		}
+	}
+	h, v, err := t.SaveVersion()
+	if err != nil {
+		return nil, err
+	}
+	it, err := t.GetImmutable(v)
+	if err != nil {
+		return nil, err
+	}
+	e, err := it.Export()
+	if err != nil {
+		return nil, err
+	}
+	defer e.Close()
+	nodes, err := drainExport(e, false)
+	if err != nil {
+		return nil, err
+	}
+	return &bigStream{v, h, nodes}, nil
+}
+
+// visibleAfterImport reports what a fresh instance sees on st: "" = nothing (no version, no root record).
+func visibleAfterImport(st *vstore.Store) string {
+	t := iavl.NewMutableTree(st.Clone(), 0, true, iavl.NewNopLogger())
+	defer t.Close()
+	lv, err := t.Load()
+	if err != nil {
+		return fmt.Sprintf("Load fails: %v", err)
+	}
+	if lv != 0 || len(t.AvailableVersions()) != 0 {
+		return fmt.Sprintf("latest=%d versions=%v", lv, t.AvailableVersions())
+	}
+	for _, kv := range st.Dump() {
+		if nk, ok := ref.ParseNodeKey(kv.K); ok && nk.Nonce == 1 {
+			return fmt.Sprintf("root record %v is stored", nk)
+		}
+	}
+	return ""
+}
+
+// bigImportDeviations: every failing batch write (faults) and every cut between physical writes (crashes) of the
+// multi-batch import. Returns violation texts.
+func bigImportDeviations(faults, cuts bool) (evals int, fails []string) {
+	bs, err := buildBigStream()
+	if err != nil {
+		return 0, []string{"big import: cannot build the stream: " + err.Error()}
+	}
+	cfg := Cfg{Fast: false}
+	// fault-free run with a call trace
+	st0 := vstore.New()
+	st0.TraceCalls = true
+	st0.LogWrites = true
+	if err := runImport(st0, cfg, bs.version, bs.nodes); err != nil {
+		return 0, []string{"big import fails without faults: " + err.Error()}
+	}
+	check := func(st *vstore.Store, committed bool, what string) {
+		evals++
+		if !committed {
+			if vis := visibleAfterImport(st); vis != "" {
+				fails = append(fails, fmt.Sprintf("%s: the import was not committed but a fresh instance sees: %s", what, vis))
+			}
+			return
+		}
+		t := iavl.NewMutableTree(st.Clone(), 0, true, iavl.NewNopLogger())
+		defer t.Close()
+		if lv, err := t.Load(); err != nil || lv != bs.version || string(t.Hash()) != string(bs.hash) {
+			fails = append(fails, fmt.Sprintf("%s: Commit reported success but a fresh instance loads version %d (err %v) with hash %x, expected %x", what, lv, err, t.Hash(), bs.hash))
+		}
+	}
+	if faults {
+		nWrites := st0.Counts[vstore.CBatchWrite]
+		for i := 0; i < nWrites; i++ {
+			st := vstore.New()
+			st.FailKindNth = map[vstore.CallKind]int{vstore.CBatchWrite: i}
+			var ierr error
+			if pv := safely("big import", func() *Violation { ierr = runImport(st, cfg, bs.version, bs.nodes); return nil }); pv != nil {
+				fails = append(fails, fmt.Sprintf("import of %d nodes with its batch write #%d failing: %s", len(bs.nodes), i, pv.Detail))
+				continue
+			}
+			check(st, ierr == nil, fmt.Sprintf("import of %d nodes with its batch write #%d failing (reported: %v)", len(bs.nodes), i, ierr))
+		}
+	}
+	if cuts {
+		for c := 0; c <= len(st0.Log); c++ {
+			img := vstore.New()
+			for _, wr := range st0.Log[:c] {
+				img.Apply(wr)
+			}
+			// before the last physical write of Commit nothing may be visible
+			check(img, c == len(st0.Log), fmt.Sprintf("import of %d nodes interrupted after %d of %d physical writes", len(bs.nodes), c, len(st0.Log)))
+		}
+	}
+	return evals, fails
+}
